@@ -416,6 +416,40 @@ def clause_wouldblock_source(ctx, P, cg):
         raise AnalysisBroken("reader functions on top of %s: %d" % (fb.srcname, n))
 
 
+def clause_forward_verdict(ctx, P, cg):
+    """a read callback that hands over to another read callback by calling it directly returns that callee's verdict: the
+    verdict CLOSED is how the reading loop learns that the connection (and its buffer) is gone"""
+    key = ("struct.buffered_socket", P.field_index("struct.buffered_socket", "read_callback"))
+    cbs = set(cg.field_funcs.get(key, ()))
+    n = 0
+    for name in sorted(cbs):
+        f = P.functions[name]
+        direct = [c for c in f.all_insts() if c.op == "call" and c.callee in cbs]
+        for c in direct:
+            n += 1
+            bad = None
+            for v in Q.path_views(ctx, P, f):
+                if not any(i.id == c.id for _, i in v.calls()):
+                    continue
+                ro = v.ret_operand()
+                fwd = ro is not None and P.strip(f, ro) == c.id
+                if not fwd:
+                    # forwarded through a helper's return block: the leaves of the returned value are this call only
+                    try:
+                        lv, _ = Q.leaves(P, f, ro, through_loads=False) if ro is not None else (set(), None)
+                    except AnalysisBroken:
+                        lv = set()
+                    fwd = bool(lv) and all(l[0] == "call" and l[3] == c.id for l in lv)
+                if not fwd:
+                    bad = v
+            ctx.ob("C09.3 R-RET", f, Q.ordinal_site(f, c, P) + ":verdict-forwarded", bad is None,
+                   "%s() calls the read callback %s() directly and does not return its verdict: after that callee closed the "
+                   "connection the reading loop goes on with a released buffer and descriptor" % (f.srcname, P.srcname_of(c.callee)),
+                   witness=bad.witness() if bad else None)
+    if n < 1:
+        raise AnalysisBroken("no read callback calls another one directly (anchor ws_get_mask -> ws_get_payload)")
+
+
 def clause_readable_drains(ctx, P, cg):
     """edge-triggered readiness: the read callback of a connection reads on EVERY invocation - a readable event that is
     consumed without reading (because output is pending, say) is never repeated"""
@@ -481,3 +515,4 @@ def run(ctx):
         clause_wouldblock_source(ctx, P, cg)
         clause_no_escape(ctx, P, cg)
         clause_readable_drains(ctx, P, cg)
+        clause_forward_verdict(ctx, P, cg)
